@@ -534,6 +534,16 @@ func (s *genState) body(depth int, inCmd bool) []Line {
 					add(Line{K: KEntry, T: CmdWordGen(t)})
 				}
 			}
+			if nw >= 2 && rapid.IntRange(0, 3).Draw(t, "cmddup") == 0 {
+				// the same command listed twice (overlapping word lists): still one alternative
+				for i := len(out) - 1; i >= 0; i-- {
+					if out[i].K == KEntry {
+						add(Line{K: KEntry, T: out[i].T})
+						s.label("duplicate-command-in-cmdline")
+						break
+					}
+				}
+			}
 			add(Line{K: KEnd})
 			s.label("cmdline-block")
 			sinceFlush++
